@@ -350,10 +350,107 @@ def run(R):
                                'urlsplit model (validated each run against the real function)']
     for label, dc in deployments():
         check_deployment(R, label, dc, node, vars(mod))
+    check_sites(R)
+
+
+def site_results():
+    """(sinks, stores, store_ok): every redirect sink / session store of auth.py with its path condition and ok-formula"""
+    from harness import C29_sites as S
+    walkers, store_ok = S.analyse(loader.read(AUTH))
+    from z3 import z3util
+    sinks, stores, reads = [], [], set()
+    names = {str(v): k for k, v in store_ok.items()}
+    for w in walkers:
+        for node, tgt, pc, ok in w.sinks:
+            sinks.append((w.fn.name, node, tgt, pc, ok))
+            if ok is not None:
+                # session keys whose stored values flow into this redirect target
+                reads |= {names[str(v)] for v in z3util.get_vars(ok) if str(v) in names}
+        for node, key, val, pc, ok in w.stores:
+            stores.append((w.fn.name, node, key, val, pc, ok))
+    return sinks, stores, store_ok, reads
+
+
+def check_sites(R):
+    """call-site obligations: every redirect of the service has a trusted or validated target"""
+    import ast as _ast
+    from harness import C29_sites as S
+    text = loader.read(AUTH)
+    R.encode(f'{AUTH} (all functions: redirect sinks, session stores)', text)
+    sinks, stores, store_ok, reads = site_results()
+    if not sinks:
+        raise HarnessError('no redirect found in auth.py — vacuous call-site analysis')
+    if not any(str(ok) not in ('True',) and ok is not None for _, _, _, _, ok in sinks):
+        raise HarnessError('no redirect with a request-derived target found in auth.py — vacuous call-site analysis')
+    assume = list(store_ok.values())
+    R.assume('call sites: the aiohttp session is an encrypted, signed cookie — its contents are what the service stored; a value '
+             'read from session[k] is trusted iff every store session[k] = v in auth.py is dominated by validation of v',
+             'call sites: trusted redirect targets are constants, deploy_config.external_url/url/base_url of trusted arguments, '
+             'request.app[...] values and the OAuth flow client\'s initiate_flow() result; everything else rooted at `request` is '
+             'tainted; any other target expression stops the check (exit 2)',
+             'call-site findings are structural (the path exists in the source); replay re-runs the analysis on the current tree')
+    n_tainted = 0
+    for fn, node, tgt, pc, ok in sinks:
+        ttext = _ast.unparse(tgt)
+        name = f'site {fn}:{node.lineno}: redirect to `{ttext}` is trusted or dominated by {S.VALIDATOR}'
+        if ok is None:
+            raise HarnessError(f'{fn}:{node.lineno}: redirect target `{ttext}` is not a recognised expression '
+                               '(neither trusted, request-derived nor session-derived)')
+        if not S.sat(pc):
+            R.ob(name, 'not_discharged', 0.0, {'reason': 'redirect unreachable in the path model'})
+            continue
+        t0 = time.time()
+        r = S.valid(pc, ok, assume)
+        trivial = str(z3.simplify(ok)) == 'True'
+        n_tainted += not trivial
+        if r == 'unsat':
+            R.ob(name, 'discharged', time.time() - t0, {'target': ttext, 'request_or_session_derived': not trivial}, nontrivial=True)
+        elif r == 'sat':
+            st = R.finding('redirect-target-not-validated', f'{AUTH} {fn}() line {node.lineno}: web redirect to `{ttext}` is reachable '
+                           f'without {S.VALIDATOR}({ttext}) having returned on the path', {'kind': 'site', 'function': fn, 'target': ttext})
+            R.ob(name, st, time.time() - t0, {'target': ttext}, nontrivial=True)
+        else:
+            R.ob(name, 'not_discharged', time.time() - t0, {'solver': r})
+    for fn, node, key, val, pc, ok in stores:
+        if key not in reads:
+            continue
+        vtext = _ast.unparse(val)
+        name = f'site {fn}:{node.lineno}: session[{key!r}] = `{vtext}` stores a trusted or validated value'
+        if ok is None:
+            raise HarnessError(f'{fn}:{node.lineno}: value stored in session[{key!r}] (`{vtext}`) is not a recognised expression')
+        t0 = time.time()
+        r = S.valid(pc, ok, assume)
+        if r == 'unsat':
+            R.ob(name, 'discharged', time.time() - t0, nontrivial=S.sat(pc))
+        elif r == 'sat':
+            st = R.finding('session-redirect-target-stored-unvalidated', f'{AUTH} {fn}() line {node.lineno}: session[{key!r}] = {vtext} '
+                           f'is reachable without {S.VALIDATOR}({vtext}); the value is later used as a redirect target',
+                           {'kind': 'store', 'function': fn, 'key': key, 'value': vtext})
+            R.ob(name, st, time.time() - t0, nontrivial=True)
+        else:
+            R.ob(name, 'not_discharged', time.time() - t0, {'solver': r})
+    R.sample({'call_sites': {'redirects': len(sinks), 'with_request_or_session_target': n_tainted,
+                             'session_keys_read_as_targets': sorted(reads)}})
 
 
 def replay(path):
     d = json.load(open(path))['replay']
+    if d.get('kind') in ('site', 'store'):
+        import ast as _ast
+        from harness import C29_sites as S
+        sinks, stores, store_ok, reads = site_results()
+        assume = list(store_ok.values())
+        if d['kind'] == 'site':
+            hits = [(fn, node) for fn, node, tgt, pc, ok in sinks if fn == d['function'] and _ast.unparse(tgt) == d['target']
+                    and (ok is None or S.valid(pc, ok, assume) != 'unsat')]
+        else:
+            hits = [(fn, node) for fn, node, key, val, pc, ok in stores if fn == d['function'] and key == d['key']
+                    and _ast.unparse(val) == d['value'] and (ok is None or S.valid(pc, ok, assume) != 'unsat')]
+        for fn, node in hits:
+            print(f'{AUTH} {fn}() line {node.lineno}: still reachable without validation')
+        if not hits:
+            print('no such unvalidated redirect / store in the current tree')
+        return 1 if hits else 0
     loader.install()
     from harness import C29_model as M
     dc = dict(deployments())[d['deployment']]
